@@ -82,6 +82,52 @@ def features(prog):
     return sorted(out)
 
 
+def reg_clobber_window(prog):
+    """True iff a register handle (RegFuture) is used in a later subroutine than the one that created it AND other statements were
+    compiled in between (after the creating subroutine was flushed): the window in which the recorded finding
+    `C05-regfuture-register-not-reserved` can hand the handle's register out as a scratch register."""
+    seg = 0
+    declared = {}          # name -> segment of creation
+    work_since = {}        # name -> other statements compiled after the creating segment was flushed
+    hit = False
+
+    def uses(st):
+        found = set()
+
+        def walk(x):
+            if isinstance(x, list):
+                if len(x) == 2 and x[0] == "r" and isinstance(x[1], str):
+                    found.add(x[1])
+                for y in x:
+                    walk(y)
+        walk(st)
+        return found
+
+    def visit(sts):
+        nonlocal seg, hit
+        for st in sts:
+            k = st[0]
+            if k == "flush":
+                seg += 1
+                continue
+            if k == "reg":
+                declared[st[1]] = seg
+                work_since[st[1]] = False
+                continue
+            if k == "m" and st[2][0] == "newr":
+                declared[st[2][1]] = seg
+                work_since[st[2][1]] = False
+            used = uses(st)
+            for name in used:
+                if name in declared and seg > declared[name] and work_since.get(name):
+                    hit = True
+            for name in declared:
+                if seg > declared[name]:
+                    work_since[name] = True          # this statement may have taken scratch registers
+    visit(prog)
+    return hit
+
+
 def measured_regs(prog):
     out = []
 
@@ -106,7 +152,7 @@ def make_body(spec, falsify=False):
         ex = TraceExecutor("ctrl", outcomes)
         conn = PipeConnection("app", executor=ex, max_qubits=spec.get("max_qubits", 3))
         sdk = SdkInterp(conn)
-        site = {"features": features(prog0)}
+        site = {"features": features(prog0), "reg_clobber_window": reg_clobber_window(prog0)}
         obs = []
         nflush = 0
         for st in prog:
@@ -284,13 +330,18 @@ def program_specs(tier, seed):
     nested = statements(1, 2, rnd, 1500 if tier == "thorough" else 150)[len(one):]
     for blk in nested:
         specs.append({"prog": DECL + blk + [["flush"]]})
+    # three blocks, flushes anywhere (a handle created in the first subroutine and used in the third, with other work in between)
+    b3 = atoms(3)
+    for _ in range(2000 if tier == "thorough" else 120):
+        a, b, c = rnd.choice(base1), rnd.choice(base2), rnd.choice(b3)
+        f1, f2 = rnd.random() < 0.5, rnd.random() < 0.5
+        specs.append({"prog": DECL + a + ([["flush"]] if f1 else []) + b + ([["flush"]] if f2 else []) + c + [["flush"]]})
     if tier == "thorough":
-        # three blocks, flushes anywhere
-        b3 = atoms(3)
-        for _ in range(600):
-            a, b, c = rnd.choice(base1), rnd.choice(base2), rnd.choice(b3)
-            f1, f2 = rnd.random() < 0.5, rnd.random() < 0.5
-            specs.append({"prog": DECL + a + ([["flush"]] if f1 else []) + b + ([["flush"]] if f2 else []) + c + [["flush"]]})
+        b4 = atoms(4)
+        for _ in range(400):
+            a, b, c, d = rnd.choice(base1), rnd.choice(base2), rnd.choice(b3), rnd.choice(b4)
+            fl = [rnd.random() < 0.5 for _ in range(3)]
+            specs.append({"prog": DECL + a + ([["flush"]] if fl[0] else []) + b + ([["flush"]] if fl[1] else []) + c + ([["flush"]] if fl[2] else []) + d + [["flush"]]})
     return specs
 
 
